@@ -4,8 +4,8 @@ Engine B, two parts:
   codec  every list of lines of length 0..n over a pool of 10 line shapes (empty, blank, tab, '.', ' .', '..',
          plain, indented, trailing blank, non-ASCII): parse_multiline_as_lines(format_multiline_lines(L)) == L,
          the str-level pair parse_multiline/format_multiline, and License.from_str(License.to_str());
-  doc    header variants x every sequence of 0..3 paragraphs from a pool of 28 (24 Files paragraphs = 3 pattern
-         lists x 2 copyright texts x 4 licences, and 4 stand-alone licences), built through the public API,
+  doc    header variants x every sequence of 0..3 paragraphs from a pool of 35 (30 Files paragraphs = 3 pattern
+         lists x 2 copyright texts x 5 licences, and 5 stand-alone licences), built through the public API,
          dumped, re-parsed with strict=True, compared field by field with what was put in, and dumped again.
 """
 import itertools
@@ -27,7 +27,7 @@ FORMAT = "https://www.debian.org/doc/packaging-manuals/copyright-format/1.0/"
 
 def bounds(tier):
     return {"codec_pool": 10, "codec_len": "0..%d" % _codec_n(tier),
-            "doc_pool": "24 Files paragraphs (3 pattern lists x 2 copyrights x 4 licences) + 4 stand-alone licences",
+            "doc_pool": "30 Files paragraphs (3 pattern lists x 2 copyrights x 5 licences, one whose text starts with an empty line) + 5 stand-alone licences",
             "doc_sequences": "0..3 paragraphs",
             "doc_headers": ("24 header variants (Upstream-Name, Source, Upstream-Contact 0/1/2 entries, License) x "
                             "sequences of 0..1 paragraphs; minimal and full header x sequences of 2..3 paragraphs"
@@ -73,7 +73,8 @@ def doc_pools(seed):
     lics = [["GPL-2+", ""],
             ["MIT", "line1\n\n  indented\nlast " + e],
             ["X", " .\n..\n\tt\nend "],
-            ["", "only text"]]
+            ["", "only text"],
+            ["Y", "\nafter an empty first line"]]
     pool = []
     for f in files:
         for cp in cps:
@@ -115,8 +116,8 @@ def unit_cost(u, tier):
             return 11 * 10
         return (10 ** (u["n"] - len(u["prefix"]))) * 12
     if u["first"] is None:
-        return len(u["hidx"]) * 29 * 450
-    return 813 * 450
+        return len(u["hidx"]) * 36 * 450
+    return 1261 * 450
 
 
 # ------------------------------------------------------------------------------------------------ real side
